@@ -6,7 +6,8 @@
    decremented exactly where the Rust code recurses natively: Ty::parse -> Type::parse -> Ty::parse and
    ConstValue::parse -> ConstValue::parse; [parse_file s = p_file (|s|+1) (|s|+1) s]. *)
 From Coq Require Import String List.
-From PVIdl Require Import Comb Ast Parser Proofs.Nesting Proofs.Total Generated.IdlReps Proofs.RepSites.
+From PVIdl Require Import Comb Ast Parser Proofs.Partial Proofs.Nesting Proofs.Total Generated.IdlReps Proofs.RepSites
+  Generated.IdlPanics Proofs.PanicSites.
 Import ListNotations.
 
 (* on every byte string (a superset of all &str) the parser returns a parse result, a recoverable error or a
@@ -62,3 +63,22 @@ Theorem C16_repetition_is_iteration :
      many_till 0 p q i = PFuel FLoop /\ sep_loop 0 q p i = PFuel FLoop /\ escaped_loop 0 p c q i i = PFuel FLoop).
 Proof. exact repetition_is_iteration. Qed.
 Print Assumptions C16_repetition_is_iteration.
+
+(* the panic half of the claim as an obligation.  The result type [pres] has [PPanic]; C16_total says the parser never
+   returns it -- which says something only if the panic-capable operations of the Rust code ARE operations of the model
+   that can answer [PPanic].  [src_panic_sites] is regenerated from the Rust text on every run (tools/extract_idl.py: for
+   every function of the 16 parser files the unwrap / expect calls, panic macros, indexing and slicing, unary minus,
+   binary + - *, division by a non-literal); [model_panic_sites] counts, in the definitions of Parser.v, the applications
+   of the partial operations of Comb.v (checked_neg: i64 negation, panics on i64::MIN; slice_p: &s[a..b], panics unless
+   a <= b <= len on char boundaries; map_unwrap).  The unmodified tree has one site, the negation in IntConstant::parse;
+   its precondition holds because the operand is the unsigned conversion of a digit run (Proofs/Partial.v), so the
+   parser equals its total reading and every other theorem of C15 / C16 is about the same function.  A new slice
+   (&input[2..end], &input[..=more]) has no counterpart in the model; a negation whose operand is converted together
+   with its sign changes the pinned conversion clauses (extract_idl.py PINNED) on which the precondition lemma rests. *)
+Theorem C16_no_panic :
+  src_panic_sites = model_panic_sites /\
+  (forall lf i, p_int_constant lf i = p_int_constant_total lf i) /\
+  (forall v, (0 <= v <= i64_max)%Z -> checked_neg v = Some (- v)%Z) /\
+  checked_neg i64_min = None.
+Proof. exact no_panic_obligation. Qed.
+Print Assumptions C16_no_panic.
